@@ -1274,6 +1274,44 @@ class PrepareAst:
 
                     return result
 
+                def evaluate_ne():
+                    # Operands that do not define __ne__ use object.__ne__, which inverts
+                    # the result of __eq__. It cannot be called directly because it would
+                    # evaluate __eq__ outside of the synthesizable context.
+                    for type_a, val_a, val_b in (
+                        (type_lhs, val_lhs, val_rhs),
+                        (type_rhs, val_rhs, val_lhs),
+                    ):
+                        ne_impl = ObjTraits.getattr(type_a, "__ne__")
+                        inverted = ne_impl is object.__ne__
+
+                        if inverted:
+                            ne_impl = ObjTraits.getattr(type_a, "__eq__")
+
+                        result = self.subcall(ne_impl, [val_a, val_b], {})
+
+                        if result.result() is not NotImplemented:
+                            break
+
+                    assert (
+                        result.result() is not NotImplemented
+                    ), f"operator '__ne__' not implemented for operands '{val_lhs}' and '{val_rhs}'"
+
+                    result.add_bound_statement(lhs)
+                    result.add_bound_statement(rhs)
+
+                    if not inverted:
+                        return result
+
+                    bool_result = self.convert_boolean(result.result(), [result])
+
+                    if isinstance(bool_result.result(), bool):
+                        return out.Value(not bool_result.result(), [bool_result])
+
+                    return out.UnaryOp(
+                        out.UnaryOp.Operator.INV, bool_result, Temporary[bool]()
+                    )
+
                 if isinstance(operator, ast.Is):
                     if isinstance(val_lhs, _MergedBranch):
                         result = val_lhs._is(val_rhs)
@@ -1292,7 +1330,7 @@ class PrepareAst:
                 elif isinstance(operator, ast.Eq):
                     return evaluate("__eq__", "__eq__")
                 elif isinstance(operator, ast.NotEq):
-                    return evaluate("__ne__", "__ne__")
+                    return evaluate_ne()
                 elif isinstance(operator, ast.Gt):
                     return evaluate("__gt__", "__lt__")
                 elif isinstance(operator, ast.Lt):
